@@ -1,8 +1,45 @@
-"""Record (object) declarations shared by the contracts."""
+"""Record (object) declarations shared by the contracts.
+
+z3 records (held by value; `mutable=True` ones are accessed through write-through views):
+  TLInput   what a cursor reads from its text object (configuration + regex identities)
+  Cursor    TextLinesCursor:  pos, len, textstr (+ input)
+  ASTD      tatsu.contexts.ast.AST seen as a string-keyed map (key order is not modelled)
+  AlertR    contexts.infos.Alert
+  Frame     contexts.state.ParseState
+  RuleInfoR contexts.infos.RuleInfo (name + flags; instance/func are opaque ids)
+  MemoKeyR, RuleResultR
+python-side records (by reference): ACursor (array-string cursor for cursor.py), States, Ctx
+"""
 from pyvc import sorts as S
 
 
 def declare(reg):
+    S.declare_record('TLInput', [
+        ('ignorecase', 'bool'), ('nameguard', 'bool'), ('namechars', 'strset'),
+        ('whitespace_re', 'int'), ('comments_re', 'int'), ('eol_comments_re', 'int'),
+    ])
+    S.declare_record('Cursor', [('pos', 'int'), ('len', 'int'), ('textstr', 'str'), ('input', 'TLInput')], mutable=True)
+    S.declare_record('ASTD', [('dkeys', 'strset'), ('dvals', 'strmap')], mutable=True)
+    S.declare_record('AlertR', [('level', 'int'), ('message', 'Val')])
+    S.declare_record('Frame', [
+        ('cursor', 'Cursor'), ('ast', 'ASTD'), ('cst', 'Val'), ('cutseen', 'bool'),
+        ('last_node', 'Val'), ('alerts', 'seq[AlertR]'),
+    ], mutable=True)
+    S.declare_record('RuleInfoR', [
+        ('name', 'str'), ('instance', 'int'), ('func', 'int'), ('no_memo', 'bool'), ('no_stak', 'bool'),
+        ('is_name', 'bool'), ('is_tokn', 'bool'), ('is_lrec', 'bool'), ('is_memo', 'bool'),
+        ('params', 'Val'), ('kwparams', 'Val'),
+    ])
+    S.declare_record('MemoKeyR', [('pos', 'int'), ('ruleinfo', 'RuleInfoR')])
+    S.declare_record('RuleResultR', [('node', 'Val'), ('newpos', 'int')])
+
+    reg.class_alias = {
+        'ParseState': 'Frame', 'AST': 'ASTD', 'Alert': 'AlertR', 'RuleInfo': 'RuleInfoR',
+        'MemoKey': 'MemoKeyR', 'RuleResult': 'RuleResultR', 'ParseStateStack': 'States',
+        'TextLinesCursor': 'Cursor',
+    }
+    reg.record_defaults = {'AlertR': {'level': 1, 'message': ''}}
+
     # a cursor as the matcher helpers in tatsu/input/cursor.py see it (Cursor protocol):
     # text as an array string, position, length, extra name characters.
     reg.classes['ACursor'] = {
@@ -10,6 +47,27 @@ def declare(reg):
         'fields': {'textstr': 'arrstr', 'pos': 'int', 'len': 'int', 'namechars': 'charset'},
         'wf': ['self.len == len(self.textstr)', '0 <= self.pos', 'self.pos <= self.len'],
         'isa': ['Cursor'],
+    }
+    reg.classes['Cursor'] = {
+        'mro': ['tatsu/input/textlines.py:TextLinesCursor'],
+        'wf': ['self.len == len(self.textstr)', '0 <= self.pos', 'self.pos <= self.len'],
+        'isa': ['Cursor', 'TextLinesCursor'],
+    }
+    reg.classes['ASTD'] = {'mro': ['tatsu/contexts/ast.py:AST'], 'isa': ['AST', 'dict']}
+    reg.classes['Frame'] = {
+        'mro': ['tatsu/contexts/state.py:ParseState'],
+        'wf': ['self.cursor.len == len(self.cursor.textstr)', '0 <= self.cursor.pos', 'self.cursor.pos <= self.cursor.len'],
+        'isa': ['ParseState'],
+    }
+    reg.classes['RuleInfoR'] = {'mro': ['tatsu/contexts/infos.py:RuleInfo'], 'isa': ['RuleInfo']}
+    reg.classes['MemoKeyR'] = {'mro': ['tatsu/contexts/infos.py:MemoKey'], 'isa': ['MemoKey']}
+    reg.classes['RuleResultR'] = {'mro': ['tatsu/contexts/infos.py:RuleResult'], 'isa': ['RuleResult']}
+    reg.classes['AlertR'] = {'mro': ['tatsu/contexts/infos.py:Alert'], 'isa': ['Alert']}
+    reg.classes['States'] = {
+        'mro': ['tatsu/contexts/state.py:ParseStateStack'],
+        'fields': {'state_stack': 'seq[Frame]', 'callstack': 'seq[RuleInfoR]'},
+        'wf': ['len(self.state_stack) >= 1'],
+        'isa': ['ParseStateStack'],
     }
 
 
